@@ -243,16 +243,9 @@ class QintImp(int, Qtype):
                 tleft = tright_[0].fill(tleft)
                 n = m
 
-        # If one operand is an even constant, use mul_even_const
-        if cls.is_const(tleft) or cls.is_const(tright):
-            t_num = tleft if cls.is_const(tright) else tright
-            t_const = tleft if cls.is_const(tleft) else tright
-            const = cast(int, cast(Qtype, t_const[0]).from_bool(t_const[1]))
-
-            if const % 2 == 0:
-                t = __mul_sizing(n, m)
-                res = cls.mul_even_const(t_num, const, t)
-                return t.crop(t.fill(res))
+        # The shift-and-add shortcut for even constants (mul_even_const) is wrong for
+        # most constants; the schoolbook product below is exact, and its literal
+        # operand bits are folded away by sympy
 
         # if n != m:
         #     raise Exception(f"Mul works only on same size Qint: {n} != {m}")
